@@ -12,7 +12,9 @@ Three oracles
      A delivery to a block that is inside event() and is not a documented window (the block
      itself calls its own event(): FSM entry action / zero-length timer / init_from_value
      during the early initialisation by an event; recognised structurally: no other block's
-     event() in between and no 'source' item, which Event.send always adds) must raise the
+     event() in between, no 'source' item, which Event.send always adds, and the callback of
+     the block that is running - the FSM builder here keeps a stack of them - is not an exit
+     action or a condition function) must raise the
      "Forbidden recursive event() call" EdzedCircuitError *in that innermost frame* (the same
      exception object then travels through every caller's event(), which is not a refusal by
      them) and the simulation must stop with an EdzedCircuitError. A delivery to an idle block,
@@ -75,6 +77,14 @@ Mutants (scratch copy with the candidate repair, 20 000 runs each = 1/3 of the q
 None missed. (Whether they pass edzed's own 249 tests was not established, except for the
 candidate repair, which does.)
 
+Seeded change C11-s2 (FSM guard open during the exit action of an intermediate state of a
+chained transition) was missed by the first version, whose FSM callbacks never sent events.
+Now exit actions (preferably of states that an entry action or a zero-length timer leaves at
+once) and condition functions send events: directly to their own FSM, through Event.send, and
+to other blocks (preferably ones with an event addressed back to the FSM). Model and monitor
+demand a refusal for everything that comes back. Quick tier on the seeded tree:
+not-refused/exit-action (975 reports), model/verdict (134); 15 000 runs with other seeds: 231/195.
+
 Corrections made while building (false alarms of the harness, not of edzed):
   - a mutant with unbounded event recursion ended in Python's RecursionError at a process
     dependent depth (non-deterministic digests): nesting watchdog at 40 open deliveries.
@@ -98,7 +108,9 @@ LEVEL = 'exploration'
 RUNS = {'quick': 60000, 'thorough': 1500000}
 CHUNK = 500
 RULE = ("one run = 2-6 blocks (forwarding probes, Input, Counter, generated FSM with "
-        "on_enter/on_exit/on_notrans and chaining entry actions / zero-length timers, Repeat, "
+        "on_enter/on_exit/on_notrans, chaining entry actions / zero-length timers and - in half "
+        "of them - exit actions / condition functions that send events to the FSM itself or "
+        "to other blocks, Repeat, "
         "OutputFunc with on_success/on_error) wired by a random directed event graph (dag / ring "
         "/ diamond / free incl. self-loops) with filters (veto, value dependent, edit) and "
         "EventCond (incl. None branches) on the edges, started, then driven by 1-4 external "
@@ -114,11 +126,17 @@ REACH_EXPECTED = [
     'nested_param_abort', 'handler_error_abort', 'early_return', 'unchanged_no_event',
     'diamond', 'via_repeat', 'via_ofunc', 'followup_all_ok', 'second_event_after_failure',
     'repeat_tick_delivery', 'refused_tick',
+    'exit_action_sends', 'exit_action_intermediate_sends', 'cond_function_sends',
+    'refused_from_exit_action', 'refused_from_intermediate_exit', 'refused_from_cond_function',
 ]
 ASSUMPTIONS = [
-    "entry/exit/cond callbacks of the generated FSMs never call other blocks; the documented "
-    "windows are recognised structurally: the delivery comes directly from the block itself "
-    "(no other block's event() in between, no 'source' item added by Event.send)",
+    "entry actions of the generated FSMs only request chained transitions from their own FSM "
+    "(the documented exception) and never call other blocks; exit actions and condition "
+    "functions DO send events (to their own FSM directly, via Event.send, and to other blocks "
+    "that may relay them back) - none of that is a documented exception. The windows are "
+    "recognised structurally: the delivery comes directly from the block itself (no other "
+    "block's event() in between, no 'source' item added by Event.send) and the block's running "
+    "callback, if any, is an entry action",
     "blocks are initialised in creation order, output events are sent in definition order, "
     "on_output before on_every_output (used by the predictive model only; a start-up whose "
     "outcome differs from the model is counted, not reported, and the model is re-synchronised)",
@@ -337,7 +355,69 @@ def _gen_circuit(rng, tier):
             pairs.append((rng.randrange(n), rng.randrange(n)))
     for i, j in pairs:
         _add_edge(rng, blocks, i, j, p_unknown, quiet)
+    for b in blocks:
+        if b['kind'] == 'fsm' and rng.random() < 0.55:
+            _gen_actions(rng, blocks, b)
     return {'blocks': blocks, 'shape': shape}
+
+
+def _feeders(blocks, name):
+    """Blocks with an event addressed to the block 'name'."""
+    out = []
+    for b in blocks:
+        if b['name'] == name:
+            continue
+        if b['kind'] == 'repeat' and b.get('dest') == name:
+            out.append(b)
+        elif any(e['dst'] == name for edges in b['out'].values() for e in edges):
+            out.append(b)
+    return out
+
+
+def _gen_action(rng, blocks, fsm):
+    """One event sent by an exit action or a condition function of an FSM."""
+    r = rng.random()
+    others = [b for b in blocks if b['name'] != fsm['name']]
+    if r < 0.35 or not others:
+        dst, how = fsm, ('call' if rng.random() < 0.75 else 'send')
+    else:
+        feeders = _feeders(blocks, fsm['name'])
+        dst = rng.choice(feeders) if feeders and rng.random() < 0.65 else rng.choice(others)
+        how = rng.choice(['call', 'send'])
+    ev = _gen_ev(rng, dst, 0.0)
+    if rng.random() < 0.1:
+        ev = {'cond': [ev, None] if rng.random() < 0.5 else [None, ev]}
+    return {'to': dst['name'], 'how': how, 'ev': ev, 'data': {'value': rng.choice(VALUES)}}
+
+
+def _gen_actions(rng, blocks, fsm):
+    """
+    Exit actions and condition functions that send events (to the FSM itself directly, or to
+    other blocks that may relay them back). Exit actions are preferred on states that an
+    entry action leaves at once (intermediate states of chained transitions).
+    """
+    spec, inst = fsm['spec'], fsm['inst']
+    acts = {}
+
+    def attach(cbname):
+        where = rng.choice(['m:', 'i:'])
+        acts[where + cbname] = [_gen_action(rng, blocks, fsm)
+                                for _ in range(1 if rng.random() < 0.85 else 2)]
+        lst = spec['methods'] if where == 'm:' else inst['funcs']
+        if cbname not in lst:
+            lst.append(cbname)
+
+    timers = spec.get('timers', {})
+    for s in _fsm_states(fsm):
+        chained = bool(inst['chain'].get(s)) and f"enter_{s}" in spec['methods']
+        zero = s in timers and (inst['t'].get(s, timers[s]['dur']) not in ('inf',))
+        if rng.random() < (0.5 if chained or zero else 0.12):
+            attach(f"exit_{s}")
+    for e in _fsm_events(fsm):
+        if rng.random() < 0.1:
+            attach(f"cond_{e}")
+    if acts:
+        inst['acts'] = acts
 
 
 def _gen_ext(rng, blocks):
@@ -493,14 +573,123 @@ def mk_events(edges, names):
     return out
 
 
-def build(plan):
+def build_fsm(b, name, kw, ctx, names):
+    """
+    The real FSM subclass and instance for one generated FSM (after fsmlib.build_class /
+    build_instance; not shared because the callbacks here also SEND events).
+    ctx['actx'] is the stack of running callbacks [(block name, kind, open deliveries)]:
+    the monitor needs it to tell the entry action (documented exception) from exit actions
+    and condition functions (no exception).
+    """
+    spec, inst = b['spec'], b['inst']
+    if inst.get('undef_in'):
+        raise PlanError('undef_in not supported here')
+    fed = edzed.fsm_event_data
+    acts = inst.get('acts', {})
+    if not isinstance(acts, dict):
+        raise PlanError('bad acts')
+    holder = {}
+    prepared = {}
+    for key, todo in acts.items():
+        items = []
+        for act in todo:
+            if not isinstance(act, dict) or act.get('to') not in names:
+                raise PlanError('action addressed to a missing block')
+            etype = mk_etype(act['ev'])
+            data = fsmlib.real_data(act.get('data', {}))
+            if act.get('how') == 'send':
+                try:
+                    items.append(('send', edzed.Event(act['to'], etype), data))
+                except Exception as err:
+                    raise PlanError(f"Event: {err}") from None
+            else:
+                items.append(('call', act['to'], etype, data))
+        prepared[key] = items
+
+    def run_acts(blk, key, kind):
+        todo = prepared.get(key)
+        if not todo:
+            return
+        ctx['actx'].append((blk.name, kind, len(ctx['stack'])))
+        try:
+            for item in todo:
+                if item[0] == 'send':
+                    item[1].send(blk, **item[2])
+                else:
+                    ctx['real'][item[1]][1].event(item[2], **item[3])
+        finally:
+            ctx['actx'].pop()
+
+    def mk_enter(sname):
+        def method(self):
+            ctx['actx'].append((self.name, 'enter', len(ctx['stack'])))
+            try:
+                for req in self.x_chain.get(sname, []):
+                    self.event(fsmlib.mk_ev(req['ev']), **fsmlib.real_data(req.get('data', {})))
+            finally:
+                ctx['actx'].pop()
+        method.__name__ = f"enter_{sname}"
+        return method
+
+    def mk_exit(sname):
+        def method(self):
+            run_acts(self, f"m:exit_{sname}", 'exit')
+        method.__name__ = f"exit_{sname}"
+        return method
+
+    def mk_cond(ename):
+        def method(self):
+            run_acts(self, f"m:cond_{ename}", 'cond')
+            return bool(fed.get().get('ok', True))
+        method.__name__ = f"cond_{ename}"
+        return method
+
+    def mk_func(kind, cbname):
+        def func():
+            run_acts(holder['blk'], f"i:{kind}_{cbname}", kind)
+            return True if kind == 'cond' else None
+        return func
+
+    timers = {s: (fsmlib.mk_dur(tm['dur']), fsmlib.mk_ev(tm['ev']))
+              for s, tm in spec['timers'].items()}
+    ns = {'STATES': list(spec['states']), 'TIMERS': timers,
+          'EVENTS': [tuple(r) for r in spec['rules']]}
+    for m in spec['methods']:
+        kind, cbname = m.split('_', 1)
+        maker = {'enter': mk_enter, 'exit': mk_exit, 'cond': mk_cond}.get(kind)
+        if maker is None:
+            raise PlanError(f"bad method {m}")
+        ns[m] = maker(cbname)
+    try:
+        cls = type(spec['cls'], (edzed.FSM,), ns)
+    except Exception as err:
+        raise PlanError(f"class construction failed: {err}") from None
+    kwargs = dict(kw)
+    for f in inst.get('funcs', []):
+        kind, cbname = f.split('_', 1)
+        if kind not in ('enter', 'exit', 'cond'):
+            raise PlanError(f"bad callback {f}")
+        kwargs[f] = mk_func(kind, cbname)
+    for sname, dur in inst.get('t', {}).items():
+        kwargs[f"t_{sname}"] = fsmlib.mk_dur(dur)
+    if inst.get('initdef') is not None:
+        kwargs['initdef'] = inst['initdef']
+    try:
+        blk = cls(name, x_chain=inst.get('chain', {}), **kwargs)
+    except Exception as err:
+        raise PlanError(f"instance construction failed: {type(err).__name__}: {err}") from None
+    holder['blk'] = blk
+    return blk
+
+
+def build(plan, ctx):
     """Create the real blocks in plan order. Returns {name: (spec, blk)}."""
     blocks = plan['blocks']
     if not isinstance(blocks, list) or not blocks:
         raise PlanError('no blocks')
     names = {b.get('name') for b in blocks}
     kinds = {b['name']: b['kind'] for b in blocks}
-    real = {}
+    real = ctx['real'] = {}
     for b in blocks:
         kind, name, out = b['kind'], b['name'], b.get('out', {})
         ev = {t: mk_events(edges, names) for t, edges in out.items()}
@@ -544,18 +733,13 @@ def build(plan):
                 blk = edzed.OutputFunc(name, func=func, f_args=(), on_success=ev.get('on_success'),
                                        on_error=ev.get('on_error'), x_st=st, **common)
             elif kind == 'fsm':
-                spec, inst = b['spec'], b['inst']
-                if inst.get('undef_in'):
-                    raise PlanError('undef_in not supported here')
-                cls = fsmlib.build_class(spec, lambda _blk, _entry: None)
                 kw = dict(common)
                 if ev.get('on_notrans'):
                     kw['on_notrans'] = ev['on_notrans']
                 for t, events in ev.items():
                     if t.startswith('on_enter:') or t.startswith('on_exit:'):
                         kw[t.replace(':', '_')] = events
-                inst = dict(inst, name=name)
-                blk = fsmlib.build_instance(cls, spec, inst, lambda _blk, _entry: None, **kw)
+                blk = build_fsm(b, name, kw, ctx, names)
             else:
                 raise PlanError(f"unknown kind {kind}")
         except PlanError:
@@ -596,6 +780,10 @@ def adopt(model, real):
 
 
 REPEAT_INTERVAL = 3600.0
+SITES = {'early-init': 'its early initialisation by an event', 'handler': 'its handler',
+         'exit-action': 'running an exit action, which must not cause events for its own FSM',
+         'cond-function': 'running a condition function, which must not cause events for its '
+                          'own FSM'}
 
 
 class DepthCap(Exception):
@@ -630,12 +818,14 @@ def execute(plan, trace=False):
             model = efm.FlowModel(plan['blocks'])
         except (ValueError, KeyError, TypeError) as err:
             raise PlanError(f"model: {err}") from None
-        real = build(plan)
+        ctx = {'stack': [], 'actx': [], 'real': None}
+        real = build(plan, ctx)
         circuit = edzed.get_circuit()
         kinds = {name: spec['kind'] for name, (spec, _b) in real.items()}
 
         # ---------------- (a) the monitor
-        stack = []
+        stack = ctx['stack']
+        actx = ctx['actx']
         depth = collections.Counter()
         mon = {'last_exc': None, 'refusals': [], 'dlv': [], 'phase': 'init', 'nested': 0}
 
@@ -651,11 +841,21 @@ def execute(plan, trace=False):
                     raise DepthCap(f"{len(stack)} nested deliveries")
                 active = depth[name] > 0
                 own = bool(stack) and stack[-1]['name'] == name and 'source' not in arg
+                # the callback of this block that makes the call (exit action / condition
+                # function: NOT a documented exception; entry action: the documented one)
+                action = None
+                if own and actx and actx[-1][0] == name and actx[-1][2] == len(stack):
+                    action = actx[-1][1]
                 steps = blk.init_steps_completed
                 tolerated = active and not own and steps < 0 and not STRICT_EARLY_INIT
-                frame = {'name': name, 'active': active, 'window': active and own, 'own': own,
-                         'tolerated': tolerated,
-                         'early': 0 <= steps < 2, 'site': 'early-init' if steps < 0 else 'handler',
+                site = 'early-init' if steps < 0 else 'handler'
+                # the innermost running callback of the addressed block, if any
+                running = next((k for n, k, _d in reversed(actx) if n == name), None)
+                if active and running in ('exit', 'cond'):
+                    site = 'exit-action' if running == 'exit' else 'cond-function'
+                frame = {'name': name, 'active': active,
+                         'window': active and own and action not in ('exit', 'cond'), 'own': own,
+                         'tolerated': tolerated, 'early': 0 <= steps < 2, 'site': site,
                          'ev': jev(etype)}
                 if stack and not own:
                     mon['nested'] += 1
@@ -706,7 +906,7 @@ def execute(plan, trace=False):
             elif frame['active'] and not frame['window']:
                 run.violate(f"C11/not-refused/{frame['site']}",
                             f"{name}: event {canon(frame['ev'])} was accepted while the block was "
-                            f"inside event() ({'its early initialisation by an event' if frame['site'] == 'early-init' else 'its handler'}); "
+                            f"inside event() ({SITES[frame['site']]}); "
                             f"open deliveries: {[f['name'] for f in stack][-8:]}")
             elif frame['window']:
                 run.fired('reach:window_own_event')
@@ -738,6 +938,12 @@ def execute(plan, trace=False):
                                ('early_return', 'early_return'),
                                ('cond_resolved', 'cond_resolved'),
                                ('unchanged_output_no_event', 'unchanged_no_event'),
+                               ('act_exit_first', 'exit_action_sends'),
+                               ('act_exit_intermediate', 'exit_action_intermediate_sends'),
+                               ('act_cond', 'cond_function_sends'),
+                               ('refused_exit_first', 'refused_from_exit_action'),
+                               ('refused_exit_intermediate', 'refused_from_intermediate_exit'),
+                               ('refused_cond', 'refused_from_cond_function'),
                                ('fsm_own_event', 'fsm_chained_request'),
                                ('zero_timer', 'fsm_zero_timer')):
                 if tag in res['notes']:
